@@ -95,7 +95,10 @@ func VH_C18_layout() {
 	// extension, one of them itself ending in ".gz" (the ".gz" is still added)
 	cfgs := append(append([]vhCfg(nil), vhCfgs...),
 		vhCfg{name: "gzip+ext", compress: true, ext: ".bin"},
-		vhCfg{name: "gzip+ext.gz", compress: true, ext: ".json.gz"})
+		vhCfg{name: "gzip+ext.gz", compress: true, ext: ".json.gz"},
+		// the empty extension is an extension like any other
+		vhCfg{name: "noext", noext: true},
+		vhCfg{name: "gzip+noext", compress: true, noext: true})
 	cfg := cfgs[vChoice("cfg", len(cfgs))]
 	db, root := vhOpenDB(cfg)
 	var rows []vhRow
@@ -131,6 +134,9 @@ func VH_C18_layout() {
 	if cfg.ext != "" {
 		ext = cfg.ext
 	}
+	if cfg.noext {
+		ext = ""
+	}
 	if cfg.compress {
 		ext += ".gz"
 	}
@@ -154,4 +160,28 @@ func VH_C18_layout() {
 			vAssert("C18.layout.content", vhFieldsEq(&got, &rows[i].o))
 		}
 	}
+	// the directory is what the next open reads: same layout understood again,
+	// the persisted extension is the configured one
+	db2 := Open(root)
+	vAssert("C18.layout.reopen", db2.Create(&vObj{}, vhSchema(cfg)) == nil)
+	if sch, err := db2.Schema(&vObj{}); err == nil {
+		want := ".json"
+		if cfg.ext != "" {
+			want = cfg.ext
+		}
+		if cfg.noext {
+			want = ""
+		}
+		vAssert("C18.layout.reopen_extension", sch.Extension == want)
+	} else {
+		vAssert("C18.layout.reopen_schema", false)
+	}
+	for i := range rows {
+		got, err := db2.GetByUUID(&vObj{}, rows[i].uuid)
+		vAssert("C18.layout.reopen_get", err == nil)
+		if err == nil {
+			vAssert("C18.layout.reopen_content", vhFieldsEq(got.(*vObj), &rows[i].o))
+		}
+	}
+	vAssert("C18.layout.reopen_names", len(vListDir(root+"/"+dirName)) == len(want))
 }
